@@ -1,6 +1,6 @@
 (** One entry point for the correspondence: checker id -> case -> verdict. *)
 From Coq Require Import ZArith List Bool.
-From Comet Require Import Base.Parse Check.C19 Check.C18 Check.VecHist Check.Codec Check.BM25Hist Check.MetaHist Check.HybridHist Check.StoreHist.
+From Comet Require Import Base.Parse Check.C19 Check.C18 Check.VecHist Check.Codec Check.BM25Hist Check.MetaHist Check.HybridHist Check.StoreHist Check.LockHist.
 Import ListNotations.
 Open Scope Z_scope.
 
@@ -27,6 +27,7 @@ Definition dispatch (id : Z) (s : list Z) : list Z :=
   else if id =? 401 then run_P chk_bsi s
   else if id =? 500 then run_P chk_hybridhist s
   else if id =? 800 then run_P chk_storehist s
+  else if id =? 1700 then run_P chk_lockhist s
   else [8].
 
 (** used by cases.v: the list of case numbers whose verdict is not OK *)
